@@ -7,21 +7,21 @@ TECH = {
     "C01": "MIR abstract interpretation; per-format writer/reader grammar agreement; path enumeration",
     "C02": "match-table and string-provenance extraction over MIR; writer/reader table agreement",
     "C03": "MIR abstract interpretation (intervals, difference constraints, lengths); panic-site discharge; loop-idiom and allocation-size rules",
-    "C04": "interval check of narrowing casts; encoder/decoder grammar agreement from MIR",
+    "C04": "interval check of narrowing casts; encoder/decoder grammar agreement from MIR; who-may-touch rule for statics / thread-locals; classification of decoder error paths",
     "C05": "stage-graph extraction; guard/effect analysis of suspend paths; taint of left-over bytes",
-    "C06": "typed-read extraction per header format vs specification table; interval analysis of basic-header forms",
-    "C07": "output-grammar extraction per header format vs specification table; path-condition analysis of format choice",
+    "C06": "typed-read extraction per header format vs specification table; interval analysis and linear byte-weight forms of the basic-header variants; per-path discharge of payload-size and suspend-gate obligations",
+    "C07": "output-grammar extraction per header format vs specification table; path-condition analysis of format choice; slice-length obligation at the splitting construct",
     "C08": "exhaustive path-sensitive tabulation of the format decision; flag provenance",
     "C09": "typestate facts at event construction sites (path replay with probes on entry values); provenance and effect analysis per transition",
     "C10": "typestate facts at request/event sites (path replay with probes on entry values); transaction consume/apply effect analysis; counter freshness",
     "C11": "constant/key table extraction; interval arithmetic of digest offsets; argument provenance",
-    "C12": "encoder grammar and decoder typed-read extraction vs AMF0 specification table; error-propagation path rule",
+    "C12": "encoder grammar and decoder typed-read extraction vs AMF0 specification table; error-propagation path rule; classification of encoder refusal paths",
     "C13": "finite table extraction (type ids, event codes, layouts) vs specification table; interval bound on chunk size",
     "C14": "call-graph SCC depth-parameter analysis; allocation-size taint rule; loop progress idioms",
-    "C15": "effect analysis of suspend paths (no observable effect); single-feed dataflow rule",
-    "C16": "keyed-state rule: no un-keyed reassembly state across a chunk boundary (provenance + abstract length)",
+    "C15": "effect analysis of suspend paths (no observable effect); single-feed dataflow rule; loop-exit classification of the driver loops",
+    "C16": "keyed-state rule: no un-keyed reassembly state across a chunk boundary (provenance + abstract length); key provenance; payload-size obligation per path",
     "C17": "path-sensitive replay of handle_input up to the message loop with helpers followed in place; probe facts (difference constraints window vs counter); single-writer analysis; sibling cross-check",
-    "C18": "producer/position order analysis (dominance vs aggregate index); single-funnel who-may-call rule",
+    "C18": "producer/position order analysis (dominance vs aggregate index); single-funnel who-may-call rule; must-not-follow path rule (no error exit after a successful serialize)",
     "C19": "private-field interval invariant (assume-guarantee); loop stride rule; API-wide panic-site discharge",
     "C20": "abstract evaluation on a finite partition of the input space (order x distance cells as difference constraints, all callees followed in place); linear normal forms modulo 2^32; panic-site discharge",
 }
@@ -69,7 +69,7 @@ man = {
                  "kind_free_text": "rustc_private MIR facts driver (/verif/driver) + python abstract interpreter, grammar/table extractors and repository-specific rules; decides from source without running it"}],
     "checks": checks,
     "not_applicable": na,
-    "notes": "fix: commits in /repo repair defects D1-D9, D11-D13, D15 found by these rules (see known_findings.json, DESIGN.md section 6). "
+    "notes": "fix: commits in /repo repair defects D1-D9, D11-D13, D15, D17 found by these rules; D10, D14, D16, D18 are open known findings (see known_findings.json, DESIGN.md section 6). "
              "Thorough tier = quick tier plus checker self-tests on a scratch copy (reverted fixes and the seeded changes of the property must fire, the behaviour-preserving variants written for the property must stay silent) whose outcome never changes the exit status.",
 }
 json.dump(man, open(os.path.join(V, "MANIFEST.json"), "w"), indent=1)
